@@ -78,71 +78,81 @@ for _g in range(16):
         functions=["bds::BDS::from_reader_with_ctx (real derive expansion)"], timeout=1500, kani_flags=FAST,
         features=("std", "alloc") if _g in (0, 1, 2) else ("std",))
 
-# ---- E-F frame level: Frame::from_bytes, byte 0 (and byte 4) concrete -------------------------
-FRAME_FN = ["Frame::from_bytes", "Frame::from_reader", "Frame::read_crc", "ReaderCrc::read/seek",
-            "DF::from_reader_with_ctx (real derive expansion)", "crc::modes_checksum"]
+# ---- E-F frame level ---------------------------------------------------------------------------
+DF_FN = ["DF::from_reader_with_ctx (real derive expansion)", "AC13Field::read", "IdentityCode::read", "Capability reader",
+         "adsb::ME / bds::BDS readers"]
+FC_FN = ["Frame::from_bytes", "Frame::from_reader", "Frame::read_crc", "ReaderCrc::read/seek", "crc::modes_checksum"]
 
 
-def frame(name, length, lo, hi, b4=-1, props=(), tier="quick", timeout=900, feats=("std",), dom=""):
-    add(name, "adsb_deku", F + "obl_frame", args="%d, 0x%02x, 0x%02x, %d" % (length, lo, hi, b4), props=list(props),
-        unwind=34, tier=tier, timeout=timeout, kani_flags=FAST, features=feats, functions=FRAME_FN,
-        domain=dom or "buffers of %d bytes, byte 0 in 0x%02x..=0x%02x%s, every other bit symbolic" % (
-            length, lo, hi, (", byte 4 = 0x%02x" % b4) if b4 >= 0 else ""))
+def dfh(name, b0, b4=-1, props=(), tier="quick", timeout=900, feats=("std",)):
+    add(name, "adsb_deku", F + "obl_df", args="0x%02x, %d" % (b0, b4), props=list(props),
+        unwind=12, tier=tier, timeout=timeout, kani_flags=FAST, features=feats, functions=DF_FN,
+        domain="complete frames with byte 0 = 0x%02x%s, every other bit symbolic" % (b0, (", byte 4 = 0x%02x" % b4) if b4 >= 0 else ""))
 
 
-HDR = ["C02", "C03", "C04", "C01", "C20"]
+def fch(name, length, b0, b4=-1, props=("C02", "C03", "C01", "C20"), tier="quick", timeout=900, feats=("std",)):
+    add(name, "adsb_deku", F + "obl_frame_crc", args="%d, 0x%02x, %d" % (length, b0, b4), props=list(props),
+        unwind=34, tier=tier, timeout=timeout, kani_flags=FAST, features=feats, functions=FC_FN,
+        domain="buffers of %d bytes with byte 0 = 0x%02x%s, every other bit symbolic" % (length, b0, (", byte 4 = 0x%02x" % b4) if b4 >= 0 else ""))
+
+
+HDR = ["C02", "C04", "C01", "C20"]
 QUICK_B0 = {0: 0x02, 4: 0x20, 5: 0x28, 11: 0x5d, 16: 0x80, 19: 0x98, 24: 0xc5, 27: 0xdd, 31: 0xf8}
 EXTRA = {0: ["C06"], 4: ["C06"], 5: ["C09"], 16: ["C06"]}
 # every value of byte 0 of the formats without an ME/MB dispatch: one harness per value
 for _df in (0, 4, 5, 11, 16, 19, 24, 25, 26, 27, 28, 29, 30, 31):
-    _need = 7 if _df < 16 else 14
     for _low in range(8):
         _b0 = (_df << 3) | _low
-        _q = QUICK_B0.get(_df) == _b0 or (_df == 11 and _low in (1, 7))
-        frame("fr_df%02d_b0_%02x" % (_df, _b0), _need, _b0, _b0, props=HDR + EXTRA.get(_df, []),
-              tier="quick" if _q else "thorough", feats=("std", "alloc") if QUICK_B0.get(_df) == _b0 else ("std",))
-# rejected formats: every value of byte 0, complete long buffer (error before any heavy arm)
+        _q = QUICK_B0.get(_df) == _b0 or (_df == 11 and _low in (1, 7)) or (_df == 24 and _low == 2)
+        dfh("df%02d_b0_%02x" % (_df, _b0), _b0, props=HDR + EXTRA.get(_df, []),
+            tier="quick" if _q else "thorough", feats=("std", "alloc") if QUICK_B0.get(_df) == _b0 else ("std",))
+# rejected formats: every value of byte 0
 for _df in (1, 2, 3, 6, 7, 8, 9, 10, 12, 13, 14, 15, 22, 23):
-    frame("fr_rej_df%02d" % _df, 14, _df << 3, (_df << 3) | 7, props=["C02", "C01", "C20"],
-          tier="quick" if _df in (1, 15, 23) else "thorough", feats=("std", "alloc") if _df in (1, 15, 23) else ("std",))
+    for _low in range(8):
+        dfh("df%02d_rej_%02x" % (_df, (_df << 3) | _low), (_df << 3) | _low, props=["C02", "C01", "C20"],
+            tier="quick" if (_df in (1, 15, 22, 23) and _low == 0) else "thorough",
+            feats=("std", "alloc") if (_df == 23 and _low == 0) else ("std",))
 # Comm-B: byte 4 = first MB byte
 for _df, _b0 in ((20, 0xa0), (21, 0xa8)):
     for _b4 in (0x00, 0x10, 0x20, 0x30):
-        frame("fr_df%d_mb%02x" % (_df, _b4), 14, _b0, _b0, _b4, props=HDR + ["C10"] + (["C06"] if _df == 20 else ["C09"]) + (["C08"] if _b4 == 0x20 else []),
-              tier="quick" if (_df, _b4) in ((20, 0x10), (21, 0x20), (21, 0x30)) else "thorough",
-              feats=("std", "alloc") if _b4 == 0x20 and _df == 21 else ("std",))
+        dfh("df%d_mb%02x" % (_df, _b4), _b0, _b4, props=HDR + ["C10"] + (["C06"] if _df == 20 else ["C09"]) + (["C08"] if _b4 == 0x20 else []),
+            tier="quick" if (_df, _b4) in ((20, 0x10), (21, 0x20), (21, 0x30), (20, 0x00)) else "thorough",
+            feats=("std", "alloc") if _b4 == 0x20 and _df == 21 else ("std",))
     for _low in range(1, 8):
-        frame("fr_df%d_fs%d" % (_df, _low), 14, _b0 + _low, _b0 + _low, 0x30, props=HDR, tier="thorough")
+        dfh("df%d_fs%d" % (_df, _low), _b0 + _low, 0x30, props=HDR, tier="thorough")
 # extended squitter: one first-ME-byte per payload class with CA = 5, and every CA / CF with one class
 ES_CLASSES = [(0x00, []), (0x20, ["C08"]), (0x28, []), (0x58, ["C06"]), (0x98, ["C07"]), (0x99, ["C07"]), (0x9b, ["C07"]),
               (0xa0, ["C06"]), (0xb8, []), (0xc0, []), (0xc8, []), (0xe1, ["C09"]), (0xea, []), (0xf0, []),
               (0xf8, []), (0xf9, []), (0xfa, [])]
 for _b4, _extra in ES_CLASSES:
-    frame("fr_df17_ca5_me%02x" % _b4, 14, 0x8d, 0x8d, _b4, props=HDR + ["C10"] + _extra,
-          tier="quick" if _b4 in (0x58, 0x99, 0x20, 0xf8, 0x00, 0xc0) else "thorough",
-          feats=("std", "alloc") if _b4 in (0x58,) else ("std",))
-    frame("fr_df18_cf0_me%02x" % _b4, 14, 0x90, 0x90, _b4, props=HDR + ["C10"] + _extra,
-          tier="quick" if _b4 in (0x58,) else "thorough")
+    dfh("df17_ca5_me%02x" % _b4, 0x8d, _b4, props=HDR + ["C10"] + _extra,
+        tier="quick" if _b4 in (0x58, 0x99, 0x20, 0xf8, 0x00, 0xc0, 0xe1) else "thorough",
+        feats=("std", "alloc") if _b4 in (0x58,) else ("std",))
+    dfh("df18_cf0_me%02x" % _b4, 0x90, _b4, props=HDR + ["C10"] + _extra,
+        tier="quick" if _b4 in (0x58,) else "thorough")
 for _ca in (0, 1, 2, 3, 4, 6, 7):
-    frame("fr_df17_ca%d_me58" % _ca, 14, 0x88 | _ca, 0x88 | _ca, 0x58, props=HDR + ["C10"], tier="quick" if _ca in (1, 7) else "thorough")
+    dfh("df17_ca%d_me58" % _ca, 0x88 | _ca, 0x58, props=HDR + ["C10"], tier="quick" if _ca in (1, 7) else "thorough")
     _cf = _ca if _ca else 5
-    frame("fr_df18_cf%d_me58" % _cf, 14, 0x90 | _cf, 0x90 | _cf, 0x58, props=HDR + ["C10"], tier="quick" if _cf in (6,) else "thorough")
-# C02: over-long buffers (std and alloc) and truncated buffers (alloc build only: with std the
-# bit-packed std::io::Error makes every failed read ambiguous for CBMC - measured, see DESIGN)
-for _nm, _b0, _b4, _need in (("df00", 0x02, -1, 7), ("df11", 0x5d, -1, 7), ("df17", 0x8d, 0x58, 14), ("df20", 0xa0, 0x20, 14),
-                              ("df16", 0x80, -1, 14), ("df24", 0xc5, -1, 14), ("df19", 0x98, -1, 14)):
+    dfh("df18_cf%d_me58" % _cf, 0x90 | _cf, 0x58, props=HDR + ["C10"], tier="quick" if _cf in (6,) else "thorough")
+# C02 / C03: what Frame::from_bytes adds (acceptance, checksum window), exact / over-long buffers in
+# both builds, truncated buffers in the alloc build only (with std the bit-packed std::io::Error
+# makes every failed read ambiguous for CBMC: measured, see DESIGN)
+for _nm, _b0, _b4, _need in (("df00", 0x02, -1, 7), ("df11", 0x5d, -1, 7), ("df17", 0x8d, 0xc0, 14), ("df20", 0xa0, 0x00, 14),
+                              ("df16", 0x80, -1, 14), ("df24", 0xc5, -1, 14), ("df19", 0x98, -1, 14), ("df15", 0x78, -1, 14)):
     for _len in (0, 1, 2, 3, 4, 5, 6, 7, 8, 13, 14, 15, 20, 32):
-        if _len == _need:
-            continue
         _short = _len < _need
-        _quick = (_len in (0, _need - 1, _need + 1, 32) and _nm in ("df11", "df17", "df19")) or (_nm == "df17" and _len in (4, 7))
-        frame("fr_len_%s_%02d" % (_nm, _len), _len, _b0, _b0, _b4 if _len > 4 else -1, props=["C02", "C03", "C01", "C04", "C20"],
-              tier="quick" if _quick else "thorough", feats=("alloc",) if _short else ("std", "alloc") if _quick else ("std",))
-add("x_fo_0", "adsb_deku", F + "obl_x_frame_only", args="0, 0x98", props=["X"], unwind=20, kani_flags=FAST)
-add("x_fo_14", "adsb_deku", F + "obl_x_frame_only", args="14, 0x98", props=["X"], unwind=20, kani_flags=FAST)
+        _quick = (_len in (0, _need - 1, _need, _need + 1, 32) and _nm in ("df11", "df17", "df19", "df24")) or (_nm == "df17" and _len in (4, 7)) or (_len == _need)
+        fch("fc_%s_%02d" % (_nm, _len), _len, _b0, _b4 if _len > 4 else -1,
+            tier="quick" if _quick else "thorough", feats=("alloc",) if _short else ("std", "alloc") if _quick else ("std",))
 
 add("crc_native", "adsb_deku", L + "obl_crc_native", props=["C03-native"], stubs=[], tier="native",
     domain="native search / replay only", functions=["crc::modes_checksum"])
+
+V = "crate::verif_obl_vel::"
+add("vel_calc", "adsb_deku", V + "obl_velocity_calc", props=["C07", "C01", "C20"], features=("std", "alloc"),
+    stubs=["libm::atan2 => crate::verif_obl_vel::atan2_stub", "libm::hypot => crate::verif_obl_vel::hypot_stub"],
+    domain="all subtypes x all 2^22 velocity words x all 2^10 vertical-rate codes; atan2/hypot results arbitrary within the stated envelope",
+    functions=["adsb::AirborneVelocity::calculate", "Sign::value"])
 
 
 def select(prop, tier):
